@@ -1036,6 +1036,15 @@ func (ex *Exec) peek(p *PtrV) Value {
 
 func (ex *Exec) makeSlice(fr *Frame, x *ssa.MakeSlice) Value {
 	n := ex.concreteInt(ex.get(fr, x.Len), "make len")
+	if isByteSlice(x.Type()) && n == 0 {
+		// an empty byte slice: its capacity (possibly symbolic) is not observable through BytesV
+		if ct, ok := ex.get(fr, x.Cap).(*Term); ok {
+			if _, conc := ct.BVVal(); !conc {
+				ex.branchAssume(ex.tt.SLe(ex.tt.BV(0, 64), ex.tt.Resize(ct, 64, true)), "makeslice: cap out of range")
+			}
+		}
+		return &BytesV{isNil: ex.tt.Bool(false), s: ex.tt.Str("")}
+	}
 	c := ex.concreteInt(ex.get(fr, x.Cap), "make cap")
 	if isByteSlice(x.Type()) {
 		if n != 0 {
@@ -1052,6 +1061,13 @@ func (ex *Exec) makeSlice(fr *Frame, x *ssa.MakeSlice) Value {
 		arr.es[i] = ex.zero(et)
 	}
 	return &SliceV{arr: ex.newObj(arr, nil), len: n, cap: c}
+}
+
+// branchAssume: cond must hold or the Go runtime panics with msg.
+func (ex *Exec) branchAssume(cond *Term, msg string) {
+	if !ex.branch(cond, "rt:"+msg) {
+		panic(ex.goPanic("%s", msg))
+	}
 }
 
 func (ex *Exec) sliceOp(fr *Frame, x *ssa.Slice) Value {
